@@ -24,6 +24,40 @@ func checkHandshakeBoth(p *load.Program, r *kit.Report) {
 		r.Bad("HANDSHAKE-BOTH", "handshake/completion", posOf(p, f.Blocks[0].Instrs[0]), "the handshake is never completed")
 		return
 	}
+	// who may complete the handshake: only the handshake thread calls sendVerifyInitiation, and
+	// handshakeIsComplete receives true only there (a message handler that completes it lets a
+	// peer skip version/verack altogether)
+	{
+		hcF := p.Field(R, "BitcoinNode", "handshakeIsComplete")
+		kk := newKeyer()
+		bad := false
+		for _, g := range pkgFuncs(p, R) {
+			if strings.HasSuffix(p.FileOf(g.Pos()), "_test.go") {
+				continue
+			}
+			id := kit.FuncID(g)
+			if id != R+".BitcoinNode.handshake" {
+				for _, c := range kit.CallsTo(g, R+".BitcoinNode.sendVerifyInitiation") {
+					bad = true
+					r.Bad("HANDSHAKE-BOTH", kk.key(kit.ShortID(id)+"/completes-handshake"), posOf(p, c), "sendVerifyInitiation (which marks the handshake complete and opens the verification gate) is called outside the handshake thread: a peer that never sent version/verack can reach accept()")
+				}
+			}
+			if id == R+".BitcoinNode.handshake" || id == R+".BitcoinNode.sendVerifyInitiation" {
+				continue
+			}
+			for _, c := range kit.CallsTo(g, "sync/atomic.Value.Store") {
+				if fa, _ := kit.FieldOfAddr(c.Common().Args[0]); fa == hcF && hcF != nil {
+					if b, isC := kit.ConstBool(c.Common().Args[1]); !(isC && !b) {
+						bad = true
+						r.Bad("HANDSHAKE-BOTH", kk.key(kit.ShortID(id)+"/store:handshakeIsComplete"), posOf(p, c), "handshakeIsComplete is set outside the handshake thread")
+					}
+				}
+			}
+		}
+		if !bad {
+			r.OK("HANDSHAKE-BOTH", "handshake/only-completer", posOf(p, f.Blocks[0].Instrs[0]), "only handshake() calls sendVerifyInitiation; handshakeIsComplete is set nowhere else")
+		}
+	}
 	// arms of the type switch
 	arm := map[string][]kit.Edge{}
 	for _, g := range kit.FindGuards(f, func(c ssa.Value) (bool, bool) {
